@@ -1155,6 +1155,82 @@ def shrink(ctx, fclones, spec, run, kind, budget=24):
     return cur
 
 
+def fault_scenarios(ctx, fclones):
+    """Environment faults around the private `$IN` copy and the launch of the transform program (model-free: inventory before /
+    after, $TMPDIR empty afterwards).
+      copy_fault:   a per-process file size limit (RLIMIT_FSIZE 16 KiB, SIGXFSZ ignored) makes every write beyond 16 KiB fail with
+                    EFBIG, exactly like a full $TMPDIR: the private copy of a 64 KiB file cannot be made.  The transform programs
+                    REWRITE their `$IN` (legitimate: without --no-copy it is a private copy).
+      no_launch:    the program cannot be launched (missing; a file that is not executable; a bogus executable)."""
+    import resource
+    import signal
+    import subprocess
+
+    def limited():
+        signal.signal(signal.SIGXFSZ, signal.SIG_IGN)
+        resource.setrlimit(resource.RLIMIT_FSIZE, (16384, 16384))
+
+    for i in range(ctx.pick(6, 40)):
+        rng = ctx.rng.fork()
+        base = os.path.realpath(os.path.join(ctx.scratch, "fault%d" % i))
+        shutil.rmtree(base, ignore_errors=True)
+        root, tmpd, bind = os.path.join(base, "tree"), os.path.join(base, "tmp"), os.path.join(base, "bin")
+        for d in (root, tmpd, bind, os.path.join(root, "sub")):
+            os.makedirs(d)
+        big = os.urandom(65536)
+        small = b"small file\n" * 20
+        for nm, data in (("a.bin", big), ("sub/b.bin", big), ("c.txt", small), ("sub/d.txt", small), ("e.bin", big[:-1] + b"x")):
+            with open(os.path.join(root, nm), "wb") as f:
+                f.write(data)
+        os.link(os.path.join(root, "a.bin"), os.path.join(root, "sub", "a_hardlink.bin"))
+        t0 = 1_600_000_000
+        for k, (dp, dn, fn) in enumerate(sorted(os.walk(root))):
+            for n in sorted(fn):
+                os.utime(os.path.join(dp, n), (t0 + k, t0 + k))
+        open(os.path.join(bind, "not_executable"), "w").write("#!/bin/sh\ncat\n")
+        open(os.path.join(bind, "bogus_elf"), "wb").write(b"\x7fELF garbage")
+        os.chmod(os.path.join(bind, "bogus_elf"), 0o755)
+        kind = ["copy_fault", "no_launch"][i % 2]
+        if kind == "copy_fault":
+            cmd = rng.choice(["truncate -s 10 $IN", "sh -c 'echo tail >> $IN'", "sh -c 'echo x > $IN; cat $IN'", "cp /dev/null $IN"])
+            flags = rng.choice([["--in-place"], ["--in-place"], []])
+            pre = limited
+        else:
+            prog = rng.choice(["no_such_program_c07", os.path.join(bind, "not_executable"), os.path.join(bind, "bogus_elf")])
+            cmd = prog + rng.choice([" $IN", "", " $IN $OUT"])
+            flags = rng.choice([[], ["--in-place"], ["--cache"]]) if "$OUT" not in cmd else []
+            if "$IN" not in cmd and "--in-place" in flags:
+                flags = []
+            pre = None
+        argv = [fclones, "group", root, "--transform", cmd] + flags + rng.choice([[], ["--threads", "1"]])
+        env = dict(os.environ, TMPDIR=tmpd, HOME=base, XDG_CACHE_HOME=os.path.join(base, "cache"), NO_COLOR="1",
+                   PATH=os.environ.get("PATH", "/usr/bin:/bin"))
+        before = inventory(root)
+        try:
+            p = subprocess.run(argv, env=env, cwd=base, stdout=subprocess.PIPE, stderr=subprocess.PIPE, timeout=120, preexec_fn=pre)
+            rc, err = p.returncode, p.stderr.decode("utf-8", "replace")
+        except subprocess.TimeoutExpired:
+            rc, err = -9, "timeout"
+        after = inventory(root)
+        ctx.count()
+        ctx.distinct(("c07fault", i, kind, cmd, tuple(flags)), True)
+        ctx.bump("fault_scenario", kind + (" " + " ".join(flags) if flags else ""))
+        payload = {"layer": "fault", "scenario": kind, "argv": argv[1:], "rlimit_fsize": 16384 if pre else None, "rc": rc, "stderr": err[-600:],
+                   "tree": "a.bin = sub/b.bin (64 KiB) + hard link sub/a_hardlink.bin, e.bin (64 KiB, differs), c.txt = sub/d.txt (small)"}
+        d = inv_diff(before, after)
+        if d:
+            payload["diff"] = d[:20]
+            ctx.violation({"kind": "tree_modified", "aspect": d[0][0], "layer": "fault"},
+                          "`fclones group --transform %r %s` under %s changed the scanned tree: %r" % (cmd, " ".join(flags), kind, d[:4]),
+                          payload, found_input=True)
+        left = sorted(os.listdir(tmpd))
+        if left:
+            payload["left_in_tmpdir"] = left[:10]
+            ctx.violation({"kind": "temp_left_behind", "layer": "fault"},
+                          "entries left in $TMPDIR after `fclones group --transform %r` (%s): %r" % (cmd, kind, left[:4]), payload, found_input=True)
+        shutil.rmtree(base, ignore_errors=True)
+
+
 def run(ctx):
     ctx.rule = ("(cli) generated trees (duplicates, hard links, symlinks incl. dangling and to directories, empty files, hostile names, old "
                 "mtimes, mixed modes) x every transform I/O combination ($IN? $OUT? --in-place? --no-copy?) with commands that read / ignore / "
@@ -1255,6 +1331,7 @@ def run(ctx):
         if os.listdir(os.path.join(pbase, "tmp")):
             ctx.violation({"kind": "temp_left_behind"}, "entries left in $TMPDIR after the plan cases: %r" % os.listdir(os.path.join(pbase, "tmp"))[:5],
                           {"layer": "plan"}, found_input=True)
+        fault_scenarios(ctx, fclones)
         # minimise the first concrete failing input of each kind (the replay written by ctx.violation is the unminimised one;
         # the minimised tree is stored next to it)
         for kind, (spec_, run_) in list(first_bad.items())[:3]:
